@@ -215,7 +215,7 @@ class _P:
 
     def value(self, depth: int = 0):
         """Generic s-expression: list | string | NIL | number | atom."""
-        if depth > 200:
+        if depth > 260:
             raise WireError('list', 'nesting too deep', self.pos)
         c = self.peek()
         if c == 0x28:
@@ -381,7 +381,11 @@ def _resp_text(p: _P):
             # plain text that happens to begin with a bracket
             code = None
             p.pos = start
+    pos = p.pos
     text = p.text_to_crlf()
+    if not text:
+        # resp-text = ["[" resp-text-code "]" SP] text ; text = 1*TEXT-CHAR
+        raise WireError('text', 'empty resp-text', pos)
     return code, text
 
 
@@ -514,7 +518,7 @@ def _is_str(v) -> bool:
 
 def check_body(val, pos: int, depth: int = 0) -> None:
     """BODY / BODYSTRUCTURE shape (RFC 3501 `body`)."""
-    if depth > 100:
+    if depth > 120:
         raise WireError('body', 'nesting too deep', pos)
     if not isinstance(val, list) or not val:
         raise WireError('body', 'body is not a non-empty list', pos)
@@ -581,6 +585,11 @@ def _msg_att(p: _P) -> dict:
         p.sp()
         pos = p.pos
         base = name.split(b'[', 1)[0].upper()
+        if base.endswith(b'.PEEK'):
+            # msg-att-static has BODY section and BINARY section-binary;
+            # the .PEEK spellings exist in requests only
+            raise WireError('fetch', 'request-only item %r in a response'
+                            % name, pos)
         if base == b'FLAGS':
             val = _flag_list(p)
         elif base in (b'UID', b'RFC822.SIZE', b'BINARY.SIZE', b'MODSEQ'):
